@@ -1,5 +1,6 @@
 """Run-time helpers imported by generated programs. This module is NOT accepted by dds on purpose:
 its functions are tracked by name only, and the execution log is not a tracked variable."""
+import collections
 import dataclasses
 
 LOG = []
@@ -7,6 +8,14 @@ LOG = []
 
 def log(name):
     LOG.append(name)
+
+
+Pair = collections.namedtuple('Pair', ['a', 'b'])
+
+
+def frame_text(df):
+    """a data frame as text: the names and the values of its row labels, its columns, its cells"""
+    return repr((list(df.index.names), [repr(i) for i in df.index.tolist()], [str(c) for c in df.columns], df.values.tolist()))
 
 
 def show(x):
